@@ -191,8 +191,15 @@ def load_alignment_from_ASAP(filename: PathLike) -> List[dict]:
     alignment = list()
     with open(filename, "r") as f:
         for line in f.readlines():
-            fields = line.split("\t")
-            if fields[0][0] == "n" and "deletion" not in fields[1]:
+            fields = line.rstrip("\n").split("\t")
+            if len(fields) < 2 or fields[0] == "xml_id":
+                # empty line or header
+                continue
+            if fields[0] == "insertion":
+                alignment.append({"label": "insertion", "performance_id": fields[1]})
+            elif "deletion" in fields[1]:
+                alignment.append({"label": "deletion", "score_id": fields[0]})
+            else:
                 alignment.append(
                     {
                         "label": "match",
@@ -200,9 +207,5 @@ def load_alignment_from_ASAP(filename: PathLike) -> List[dict]:
                         "performance_id": fields[1],
                     }
                 )
-            elif fields[0] == "insertion":
-                alignment.append({"label": "insertion", "performance_id": fields[1]})
-            elif fields[0][0] == "n" and "deletion" in fields[1]:
-                alignment.append({"label": "deletion", "score_id": fields[0]})
 
     return alignment
